@@ -523,6 +523,11 @@ func (e *Engine) solveSet(o *checkOpts, obls []*Obligation) {
 	}
 }
 
+type retGroup struct {
+	sat, unsat, unknown int
+	ob         *Obligation
+}
+
 func sanitizeFile(s string) string {
 	var b strings.Builder
 	for _, c := range s {
@@ -600,6 +605,7 @@ func (e *Engine) report(o *checkOpts, units []*Unit, start time.Time, loadSecs, 
 		unitSet := map[string]bool{}
 		var unitErrs []string
 		coverOK := 0
+		retCover := map[string]*retGroup{}
 		for _, u := range units {
 			if !contains(contractPropsOrUnit(u), prop) {
 				continue
@@ -612,6 +618,23 @@ func (e *Engine) report(o *checkOpts, units []*Unit, start time.Time, loadSecs, 
 		}
 		for _, ob := range e.obls {
 			if !contains(ob.Props, prop) || ob.Skip {
+				continue
+			}
+			if ob.Vacuity && ob.Kind == "cover" && strings.Contains(ob.Name, "#cover:return-reachable@") {
+				g := retCover[ob.Unit]
+				if g == nil {
+					g = &retGroup{ob: ob}
+					retCover[ob.Unit] = g
+				}
+				switch ob.Result.Status {
+				case "sat":
+					g.sat++
+					coverOK++
+				case "unsat":
+					g.unsat++
+				default:
+					g.unknown++
+				}
 				continue
 			}
 			if ob.Vacuity {
@@ -636,6 +659,11 @@ func (e *Engine) report(o *checkOpts, units []*Unit, start time.Time, loadSecs, 
 				fails = append(fails, failure{name: ob.Name, reason: "refuted", detail: ob.Result.Model, ob: ob})
 			default:
 				fails = append(fails, failure{name: ob.Name, reason: "undecided:" + ob.Result.Status, detail: ob.Result.Raw, ob: ob})
+			}
+		}
+		for unit, g := range retCover {
+			if g.sat == 0 && g.unknown == 0 && g.unsat > 0 {
+				fails = append(fails, failure{name: unit + "#cover:some-return-reachable", reason: "vacuous", detail: "no return of this unit is reachable under its preconditions, callee contracts and loop invariants: its postconditions hold vacuously", ob: g.ob})
 			}
 		}
 		// group failures by obligation name; match known findings
